@@ -202,12 +202,12 @@ theorem sortedDocs_fetch_same (clen : Nat → List Nat → Nat) (hclen : ∀ i p
     (∀ id pos, lookupPos w.positions id = some pos → readAt w.blockOffsets w.file pos = oldRead id) ∧
     (∀ id, id ∈ sortedIDs.tail → id ≠ (0, 0) → ∃ pos, lookupPos w.positions id = some pos) := by
   unfold writeSortedDocs at hw
-  cases hs : sortDocsGo clen minBS oldRead sortedIDs.tail (0, 0) DW.init with
+  cases hs : sortDocsGo clen (docBlockSizeOf minBS) oldRead sortedIDs.tail (0, 0) DW.init with
   | none => rw [hs] at hw; simp at hw
   | some w0 =>
     rw [hs] at hw
     simp only [Option.map_some, Option.some.injEq] at hw
-    obtain ⟨i1, -, i3⟩ := sortDocsGo_inv clen hclen minBS oldRead sortedIDs.tail (0, 0) DW.init w0 (init_DInv oldRead)
+    obtain ⟨i1, -, i3⟩ := sortDocsGo_inv clen hclen (docBlockSizeOf minBS) oldRead sortedIDs.tail (0, 0) DW.init w0 (init_DInv oldRead)
       (by simp [DW.init]; omega) hs
     have hfin : DInv oldRead w ∧ w.docs = [] ∧ w.positions = w0.positions := by
       subst hw
